@@ -96,6 +96,11 @@ class Base:
         if mode == "raise":
             self._log(op, "raise")
             raise DevErr(f"{self.name}.{op} raised")
+        if mode == "none":
+            self._log(op, "nostatus")           # the device acts, but returns None instead of a status object
+            if on_done:
+                on_done()
+            return None
         st = FStatus(self.rec, f"{self.name}.{op}")
         self._log(op, "", st.sid)
         ok = mode not in ("fail_now", "fail_later")
